@@ -72,8 +72,16 @@ def simplify_latent_dag(graph: nx.DiGraph, *, tag: str | None = None) -> Simplif
     _assert_variable_nodes(graph)
 
     _ = transform_latents_with_parents(graph, tag=tag)
-    _, widows = remove_widow_latents(graph, tag=tag)
-    _, unidirectional_latents = remove_unidirectional_latents(graph, tag=tag)
+    widows: set[Variable] = set()
+    unidirectional_latents: set[Variable] = set()
+    while True:
+        # removing a latent can turn its latent parent into a widow or a unidirectional latent
+        _, new_widows = remove_widow_latents(graph, tag=tag)
+        _, new_unidirectional_latents = remove_unidirectional_latents(graph, tag=tag)
+        if not new_widows and not new_unidirectional_latents:
+            break
+        widows |= new_widows
+        unidirectional_latents |= new_unidirectional_latents
     _, redundant = remove_redundant_latents(graph, tag=tag)
 
     return SimplifyResults(
